@@ -28,6 +28,7 @@ type Config struct {
 	MaxWitnesses       int
 	Params             map[string]int  // harness parameters (vParam)
 	UFs                map[string]bool // functions summarised as uninterpreted functions
+	Noops              map[string]bool // functions replaced by a no-op returning zero values
 }
 
 func DefaultConfig() *Config {
@@ -339,6 +340,14 @@ func (in *Interp) callSSA(caller *frame, fn *ssa.Function, args []Value, env []V
 	}
 	if depth > in.cfg.MaxDepth {
 		in.abort(abUnwind, fmt.Sprintf("call depth %d exceeded in %s", in.cfg.MaxDepth, fn))
+	}
+	if len(in.cfg.Noops) > 0 && in.cfg.Noops[fn.String()] {
+		in.stubsSeen["noop:"+fn.String()]++
+		res := fn.Signature.Results()
+		if res.Len() == 0 {
+			return nil
+		}
+		return in.zero(res)
 	}
 	if len(in.cfg.UFs) > 0 && in.cfg.UFs[fn.String()] {
 		in.stubsSeen["UF:"+fn.String()]++
